@@ -64,3 +64,28 @@ Proof.
   split; [vm_compute; reflexivity|]. split; [vm_compute; reflexivity|].
   destruct ex_recovery as (_ & H2 & _). exact H2.
 Qed.
+
+(** END TO END (Durable.v, see Props/C03.v for the vocabulary): a flush or sync in the middle of a
+    history FAILS (arbitrary fault oracle, arbitrary garbage left on disk).  Then (1) right after
+    the failure the memory view still tracks the store exactly, the store is untouched, the dirty
+    flag is still raised and the store represents the ideal map of all updates so far - the
+    in-memory view stays fully correct; (2) it keeps tracking at every later point; (3) once a later
+    flush or sync reports success, the disk holds exactly the image of the current store, which a
+    reader of the format maps back to the current state with the ideal map's contents - every update,
+    those before the failure included, is durable. *)
+From Aby Require Import Vu64 KeyTypes Consts Sizing Alloc Htx Layout Load Spec Refine Refine_all Load_all Durable.
+
+Theorem C16_failed_flush_then_full_recovery : forall cv ck ch, 0 < cv -> 0 < ck -> 0 < ch ->
+  forall c ops1 fop ops2 c1 c1' c' (o : fid -> oracle bytes) d2 m,
+  wf_state (c_store c) -> tracks cv ck ch c -> dinv (c_buf c) -> represents (c_store c) m ->
+  cops_wf (kt (c_store c)) (ops1 ++ fop :: ops2) ->
+  crun cv ck ch c ops1 = Ok c1 ->
+  is_flush fop -> cstep cv ck ch c1 fop = Ok (c1', false) ->
+  crun cv ck ch c1' ops2 = Ok c' ->
+  (dflush o (c_buf c') = (d2, true) \/ exists all, dsync all o (c_buf c') = (d2, true)) ->
+  (tracks cv ck ch c1 /\ tracks cv ck ch c1' /\ c_store c1' = c_store c1 /\ view (c_buf c1') = view (c_buf c1) /\
+   dflag (c_buf c1') = true /\ represents (c_store c1') (fst (spec_run m (updates_of ops1)))) /\
+  (forall opsa opsb, ops2 = opsa ++ opsb -> exists ca, crun cv ck ch c1' opsa = Ok ca /\ tracks cv ck ch ca) /\
+  crun cv ck ch c (ops1 ++ fop :: ops2) = Ok c' /\
+  durable_at (c_store c') (fst (spec_run m (updates_of (ops1 ++ fop :: ops2)))) (c_buf c') d2.
+Proof. exact C16_failed_flush_then_recovery. Qed.
